@@ -5,34 +5,8 @@ import json, os, subprocess
 ROOT = os.path.dirname(os.path.dirname(os.path.abspath(__file__)))
 
 # id -> (built?, engine, technique, level text, level note, design ref)
-P = {
- "C01": (True, "g_codec", "property-based round-trip (proptest tape generators) + exhaustive enumeration of small types",
-   "Generated-input search: ~120 concrete instantiations of the built-in impls, boundary-dense tape-generated values, decode(encode(v)) with junk suffix compared under the property's equality, exact consumption, borrow check; u8/i8/u16/i16/char/NonZero16 enumerated completely (u32/i32/f32 completely in the thorough tier). Exhaustive where flagged, otherwise 'no counterexample among N cases'.",
-   "Trusts the harness equality relations and generators; excludes only what the property excludes.", "DESIGN.md §3 C01"),
- "C02": (False, "g_total", "exhaustive short inputs + type-directed mutation fuzzing + libFuzzer target, panic/step/alloc/bounds oracles", "", "", "DESIGN.md §3 C02"),
- "C03": (False, "g_codec", "differential against an independent RFC 8949 reference encoder/parser; exhaustive small argument spaces; generated Encoder call histories", "", "", "DESIGN.md §3 C03"),
- "C04": (False, "g_codec", "model-based: every accessor / registry type against a data-model oracle over exhaustively enumerated small item trees and generated trees; all strict prefixes", "", "", "DESIGN.md §3 C04"),
- "C05": (True, "g_codec", "exhaustive enumeration + boundary-dense property-based generation against an i128 oracle",
-   "Every (sign, width, argument) with argument < 2^16 and every 2^k±3 at every admissible width is decoded through 40 typed targets and the Int conversions and compared with exact i128 arithmetic (complete enumeration); random 64-bit arguments in addition; the thorough tier sweeps all 2^32 arguments at the 4- and 8-byte widths.",
-   "Oracle is i128 arithmetic in the harness; 64-bit host only.", "DESIGN.md §3 C05"),
- "C06": (False, "g_codec", "exhaustive small trees + generated deep trees/chains against a reference item-boundary parser; differential with full decoding; no-alloc build replay", "", "", "DESIGN.md §3 C06"),
- "C07": (False, "g_derive", "property-based len == bytes written over built-in types, tokens and generated derived schemas", "", "", "DESIGN.md §3 C07, §4"),
- "C08": (False, "g_derive", "program generation (schema grammar) + schema-driven reference encoder differential", "", "", "DESIGN.md §4"),
- "C09": (False, "g_derive", "program generation + round-trip, re-framing metamorphic relation, negative edits", "", "", "DESIGN.md §4"),
- "C10": (False, "g_derive", "generated schema-version pairs (compatible edit sequences) decoded across versions, field-wise model comparison", "", "", "DESIGN.md §4"),
- "C11": (False, "g_codec", "round-trip / metamorphic identities over generated item sequences and token sequences; exhaustive halves", "", "", "DESIGN.md §3 C11"),
- "C12": (True, "g_codec", "exhaustive enumeration of f16 patterns and stratified/complete f32 sweeps against integer-only reference half arithmetic",
-   "All 65536 half patterns and a 2^24 stratified set of f32 patterns (all 2^32 in the thorough tier) are pushed through every float accessor and encoder method and compared bit-for-bit with an independent integer-only IEEE 754 reference (round-to-nearest-even, overflow to infinity, NaN to NaN); doubles at every exponent boundary and random patterns.",
-   "The reference half arithmetic is in the harness (unit-tested, no use of the half crate).", "DESIGN.md §3 C12"),
- "C13": (False, "g_codec", "property-based over (value, capacity, sink kind) with canary-guarded buffers and raw write histories against a 3-line model", "", "", "DESIGN.md §3 C13"),
- "C14": (False, "g_io", "exhaustive read-size compositions for short streams + generated fragmentation/fault scripts against a frame model", "", "", "DESIGN.md §5 C14"),
- "C15": (False, "g_io", "exhaustive DFS over poll/drop schedules (bounded) + seeded random schedules, scripted executor", "", "", "DESIGN.md §5 C15"),
- "C16": (False, "g_io", "exhaustive DFS over sink-outcome/cancel schedules (bounded) + seeded random schedules, scripted executor", "", "", "DESIGN.md §5 C16"),
- "C17": (False, "g_serde", "property-based round-trip + differential against a model serde serializer", "", "", "DESIGN.md §5 C17"),
- "C18": (False, "g_serde", "differential bridge vs native on generated values and re-framed encodings", "", "", "DESIGN.md §5 C18"),
- "C19": (False, "g_codec", "exhaustive short inputs + mutation fuzzing with a size-limited sink; differential against a reference renderer", "", "", "DESIGN.md §3 C19"),
- "C20": (False, "g_cfg", "differential across six separately built feature configurations on one generated corpus", "", "", "DESIGN.md §5 C20"),
-}
+P = {k: (v["built"], v["engine"], v["technique"], v["text"], v["note"], v["design_ref"]) for k, v in json.load(open(os.path.join(ROOT, "scripts", "checks.json"))).items()}
+
 
 def main():
     hooks_commits = []
